@@ -4,13 +4,13 @@ import vlib, apitrace
 def run(res, a):
     if a.replay:
         return apitrace.replay(res, "C01", a.replay)
-    vlib.proof_stage(res, "C01", files=["C01", "C01span"])
+    vlib.proof_stage(res, "C01", files=["C01", "C01span", "C01compose"])
     big = a.tier == "thorough"
     k = 4 if big else 1
     plan = [("boundary", 10 * k, 400), ("fillfree", 10 * k, 600), ("span", 8 * k, 350), ("aligned", 8 * k, 350), ("realloc", 6 * k, 350),
             ("heaps", 8 * k, 350), ("malformed", 4 * k, 300), ("huge", 3 * k, 40)]
     for sd in ([a.seed, a.seed + 1, a.seed + 2] if big else [a.seed]):
-        apitrace.run_traces(res, "C01", plan, sd, dump=True, tag="" if sd == a.seed else "_s%d" % sd)
+        apitrace.run_traces(res, "C01", plan, sd, dump=True, tag="" if sd == a.seed else "_s%d" % sd, fulldump=5)
     try:
         import spanmodel
         spanmodel.run(res, a.seed, a.tier)
@@ -20,7 +20,11 @@ def run(res, a):
                        "realloc chains, heap lifecycle, malformed stream, huge blocks); after every call a shadow table checks that the new block's usable "
                        "range overlaps no live block, is fully writable, and that every live block still holds the byte pattern written over its whole "
                        "usable size (zero-size requests included); every page touched is dumped and checked against the Coq page invariant (page_inv_b) and "
-                       "the model's transition relation. distinct = distinct traces")
+                       "the model's transition relation; about 5 times per trace and at its end the FULL state (every segment's slice array, every page, the span queues) is dumped, "
+                       "rebuilt as a state of the Coq composite model (Model/Compose.v) with the shadow table as ghost, and checked: mem_inv_b (= mem_inv), every live pointer "
+                       "resolves (ptr_segment / page_of / unalign) to exactly one block, page starts and usable sizes agree, abs = shadow table. distinct = distinct traces")
     res.assumptions += ["MMU/page protections are outside the model: accessibility is observed by touching every byte (every page of blocks > 1 MiB)",
-                        "the composition of the page, span and arena layers into one refinement theorem is not machine-checked: the layer theorems are "
-                        "(page: C01_page_*; address arithmetic: C16_*); disjointness across pages/segments is checked by the overlap oracle"]
+                        "composition (Properties/C01compose.v): page + span + address arithmetic + the OS layer's contract on segment addresses are composed into one "
+                        "refinement theorem over Model/Compose.v; not part of it: block contents (no byte store in the composite model; disjointness + the per-layer "
+                        "'the allocator writes only dead blocks' + the byte-pattern oracle), the page queues (which page is used is a choice argument), commit failure "
+                        "(C07)"]
